@@ -115,7 +115,7 @@ def handle (op : String) (f : List String) : Verdict :=
         | some n => (if path.isEmpty then n.kids.length else n.kids.length + 1) ≥ 2
         | none => false
       judge { t := t, model := reroot t path, outcome := outcome, after := after, root := true, small := small,
-              tags := ["op-reroot"] ++ tagIf inner "inner-target" ++ tagIf (!inner) "tip-target" ++ tagIf (path.length ≥ 2) "deep",
+              tags := ["op-reroot"] ++ tagIf inner "inner-target" ++ tagIf (!inner) "tip-target" ++ tagIf (path.length ≥ 2) "deep" ++ tagIf (path.length == 1) "single-move",
               okOracle := (fun u => if !inner then some "rerooted on a tip" else presMsg t u),
               errOracle := if inner then some "inner node refused as new root" else none }
     | _, _ => bad "C05.reroot fields"
@@ -135,7 +135,7 @@ def handle (op : String) (f : List String) : Verdict :=
       let side := isSide t S
       let s := outTips t S
       let tags := ["op-outgroup", "kind-" ++ kind] ++ tagIf rm "remove" ++ tagIf strict "strict" ++ tagIf side "side" ++
-        tagIf (s.length != S.length) "absent-names" ++
+        tagIf (s.length != S.length) "absent-names" ++ tagIf (rm && !strict && !side) "remove-nonside" ++
         tagIf (side && (sideLen t s == some 0)) "zero-cut" ++ tagIf (side && (sideLen t s == some NIL)) "nolen-cut"
       let tags := tags ++ tagIf (outcome == "err" && !side) "nontrivial"
       judge { t := t, model := rerootOutGroup rm strict S t, outcome := outcome, after := after, root := true,
@@ -143,7 +143,9 @@ def handle (op : String) (f : List String) : Verdict :=
               okOracle := (fun u =>
                 if strict && !side then some "non-monophyletic outgroup accepted in strict mode"
                 else if rm then
-                  (if side then (if removedOK t s u then none else some "outgroup removed: the rest is not the restriction of the tree")
+                  (if side && !(removedOK t s u) then some "outgroup removed: the rest is not the restriction of the tree"
+                   else if !(removedAnyOK t s u) then
+                     some "outgroup removed: what is left is not the tree restricted to the surviving tips (lengths, supports), or the removed tips are not one side of a split containing the outgroup"
                    else none)
                 else match presMsg t u with
                   | some m => some m
@@ -161,9 +163,14 @@ def handle (op : String) (f : List String) : Verdict :=
       let positive := allLens t && diam t > 0
       -- which of several longest paths is cut is the implementation's choice: the tie compares
       -- the unrooted observation; the root position is pinned by the oracle (`halfwayOK`)
-      judge { t := t, model := rerootMidPoint t, outcome := outcome, after := after, root := false,
+      -- … but when the longest path is unique there is no choice: then the root position (root clades, root
+      -- branch data, root-to-tip distances) is part of the tie as well
+      let tips := sortS t.tipNames
+      let D := diam t
+      let nmax := (tips.map fun a => (tips.filter fun b => decide (a < b) && t.dist a b == D).length).sum
+      judge { t := t, model := rerootMidPoint t, outcome := outcome, after := after, root := nmax == 1,
               small := t.tipNames.length < 3,
-              tags := ["op-midpoint"] ++ tagIf positive "positive" ++ tagIf (allLens t && diam t == 0) "allzero" ++ tagIf (midpointStale t) "stale-farend",
+              tags := ["op-midpoint"] ++ tagIf positive "positive" ++ tagIf (allLens t && diam t == 0) "allzero" ++ tagIf (midpointStale t) "stale-farend" ++ tagIf (nmax == 1) "unique-longest" ++ tagIf (nmax > 1) "tied-longest",
               okOracle := (fun u =>
                 match presMsg t u with
                 | some m => some (midClass t u ++ m)
